@@ -26,3 +26,4 @@ try 2cd7c30 C12
 try 82c86a2 C05
 try 68a572a C18
 try bd28bfc C14
+try d2a4706 C12 C05
